@@ -51,3 +51,12 @@ package slayers
 //@ # a change of the covered sum by one bit position of a 16-bit word changes the folded sum
 //@ lemma bitFlipUp C20: forall S uint32, k uint32 :: S < 0x7fff0000 && k < 16 ==> fold32(S+(1<<k)) != fold32(S)
 //@ lemma bitFlipDown C20: forall S uint32, k uint32 :: S < 0x7fff0000 && k < 16 && S >= (1<<k) ==> fold32(S-(1<<k)) != fold32(S)
+
+//@ # ---- SCMP header codec (C18)
+//@ func (*SCMP).DecodeFromBytes
+//@   props C18
+//@   requires df != nil
+//@   modifies *s
+//@   ensures (result == nil) == (len(data) >= 4)
+//@   ensures result == nil ==> s.TypeCode == SCMPTypeCode(uint16(data[0])<<8|uint16(data[1])) && s.Checksum == uint16(data[2])<<8|uint16(data[3])
+//@   ensures result == nil ==> s.BaseLayer.Contents == data[:4] && s.BaseLayer.Payload == data[4:]
